@@ -94,7 +94,8 @@ def cert(ctx, binary, n):
                 done_ok += 1
                 continue
             failed_shards.add(k)
-            m = re.search(r'line (\d+), characters', r["error"] or "")
+            ms = re.findall(r'line (\d+), characters [^\n]*\n\s*Error', r["error"] or "")
+            m = re.match(r"(\d+)", ms[-1]) if ms else None
             if not m:
                 ctx.violation({"obligation": "certificate shard " + os.path.basename(p), "coqc_error": (r["error"] or "")[-1500:]},
                               False, "certificate shard did not evaluate")
